@@ -174,6 +174,111 @@ func flattenSinks(ins []ssa.Instruction) []ssa.Instruction {
 	return out
 }
 
+// regionFuncs: fn, its closures, and the functions new since the anchor
+// snapshot that any of them call (with their closures), two levels deep — the
+// code that belonged to fn's body when the rule tables were written.
+func regionFuncs(fn *ssa.Function) []*ssa.Function {
+	var out []*ssa.Function
+	seen := map[*ssa.Function]bool{}
+	var add func(f *ssa.Function, depth int)
+	add = func(f *ssa.Function, depth int) {
+		if f == nil || seen[f] {
+			return
+		}
+		seen[f] = true
+		out = append(out, f)
+		for _, a := range f.AnonFuncs {
+			add(a, depth)
+		}
+		if depth >= 2 {
+			return
+		}
+		for _, ci := range CallsIn(f) {
+			if h := CalleeFunc(ci.Common()); h != nil && h.Blocks != nil && IsRepoFunc(h) && IsNewFunc(h) {
+				add(h, depth+1)
+			}
+		}
+	}
+	add(fn, 0)
+	return out
+}
+
+// newHelperReturns: when v is a result of a call of a function new since the
+// anchor snapshot, what that function returns in that position (the producing
+// code was extracted); nil otherwise.
+func newHelperReturns(v ssa.Value) []ssa.Value {
+	call, idx, ok := CallResult(v)
+	if !ok {
+		return nil
+	}
+	h := CalleeFunc(&call.Call)
+	if h == nil || h.Blocks == nil || !IsRepoFunc(h) || !IsNewFunc(h) {
+		return nil
+	}
+	var out []ssa.Value
+	for _, ri := range Returns(h) {
+		ret := ri.(*ssa.Return)
+		if ret.Block() == h.Recover || idx >= len(ret.Results) {
+			continue
+		}
+		out = append(out, ret.Results[idx])
+	}
+	return out
+}
+
+// descendToWrites: the function whose own body writes the field — fn, or the
+// single function new since the anchor snapshot in fn's region that does.
+func descendToWrites(fn *ssa.Function, field *types.Var) *ssa.Function {
+	if len(FieldWrites([]*ssa.Function{fn}, field)) > 0 {
+		return fn
+	}
+	var found *ssa.Function
+	for _, h := range regionFuncs(fn)[1:] {
+		if h.Parent() == nil && len(FieldWrites([]*ssa.Function{h}, field)) > 0 {
+			if found != nil && found != h {
+				return fn
+			}
+			found = h
+		}
+	}
+	if found != nil {
+		return found
+	}
+	return fn
+}
+
+// descendTo: the function whose own body holds the calls matching m — fn, or
+// (when the block was moved out) the single function new since the anchor
+// snapshot that fn calls and that contains them; followed two levels. The
+// second result is the call that leads there (nil when fn itself).
+func descendTo(fn *ssa.Function, m CallMatcher) (*ssa.Function, *ssa.Call) {
+	var via *ssa.Call
+	for depth := 0; depth < 2; depth++ {
+		if len(CallSinks(fn, m, true)) > 0 {
+			return fn, via
+		}
+		var next *ssa.Function
+		var site *ssa.Call
+		n := 0
+		for _, ci := range CallsIn(fn) {
+			h := CalleeFunc(ci.Common())
+			if h == nil || h == fn || h.Blocks == nil || !IsRepoFunc(h) || !IsNewFunc(h) || !ContainsCall(h, m) {
+				continue
+			}
+			if h != next {
+				n++
+			}
+			next = h
+			site, _ = ci.(*ssa.Call)
+		}
+		if n != 1 {
+			return fn, via
+		}
+		fn, via = next, site
+	}
+	return fn, via
+}
+
 // effectiveOwner: for a function that is new since the anchor snapshot and is
 // called (statically) from exactly one other top-level function of its
 // package, the function it was extracted from (followed up to three levels);
